@@ -288,9 +288,10 @@ def run_property(prop, tier, jobs=None, only=None):
         for fl in r["failed"]:
             rp = fl.get("replay")
             ck = (o.name, json.dumps(rp, sort_keys=True))
-            per_ob[o.name] = per_ob.get(o.name, 0) + 1
-            if per_ob[o.name] > 2 and ck not in replay_cache:
-                fl["replay_skipped"] = "more than 2 counterexamples in this obligation; first two replayed"
+            pk = (o.name, fl["what"].split(" [path")[0])
+            per_ob[pk] = per_ob.get(pk, 0) + 1
+            if per_ob[pk] > 3 and ck not in replay_cache:
+                fl["replay_skipped"] = "more than 3 counterexamples for the same query; first three replayed"
                 continue
             if ck in replay_cache:
                 replay_cache[ck]["also"] = replay_cache[ck].get("also", 0) + 1
